@@ -4,7 +4,7 @@ from typing import cast
 from xdsl.context import Context
 from xdsl.dialects import arith, builtin
 from xdsl.dialects.memref import AllocOp
-from xdsl.ir import OpResult
+from xdsl.ir import OpResult, SSAValue
 from xdsl.passes import ModulePass
 from xdsl.pattern_rewriter import (
     PatternRewriter,
@@ -15,6 +15,58 @@ from xdsl.pattern_rewriter import (
 from xdsl.rewriter import InsertPoint
 
 from snaxc.dialects.pipeline import IndexOp, PipelineOp, StageOp, YieldOp
+from snaxc.transforms.insert_sync_barrier import VIEW_OPS
+
+
+def _same_value(a: SSAValue, b: SSAValue) -> bool:
+    """Whether two values are the same value, or the result of the same view / constant computation"""
+    if a is b:
+        return True
+    if not isinstance(a, OpResult) or not isinstance(b, OpResult) or a.index != b.index:
+        return False
+    op_a, op_b = a.op, b.op
+    if not isinstance(op_a, VIEW_OPS + (arith.ConstantOp,)) or type(op_a) is not type(op_b):
+        return False
+    if op_a.properties != op_b.properties or op_a.attributes != op_b.attributes:
+        return False
+    if op_a.result_types != op_b.result_types:
+        return False
+    if len(op_a.operands) != len(op_b.operands):
+        return False
+    return all(_same_value(x, y) for x, y in zip(op_a.operands, op_b.operands))
+
+
+def _depends_on_index(value: SSAValue, index_op: IndexOp) -> bool:
+    """Whether a value is computed in the pipeline index op from the pipeline index"""
+    worklist, seen = [value], set[SSAValue]()
+    while worklist:
+        value = worklist.pop()
+        if value in seen:
+            continue
+        seen.add(value)
+        if value is index_op.body.block.args[0]:
+            return True
+        if isinstance(value, OpResult) and value.op.parent_block() is index_op.body.block:
+            worklist.extend(value.op.operands)
+    return False
+
+
+def may_be_same_memory(a: SSAValue, b: SSAValue, index_op: IndexOp) -> bool:
+    """
+    Whether two different stage buffers can refer to the same memory: views of different buffers
+    never do. Views of one buffer that are both computed from the pipeline index select another
+    tile in every iteration, they only refer to the same memory if they are the same computation.
+    """
+    root_a, root_b = a, b
+    while isinstance(root_a, OpResult) and isinstance(root_a.op, VIEW_OPS):
+        root_a = root_a.op.operands[0]
+    while isinstance(root_b, OpResult) and isinstance(root_b.op, VIEW_OPS):
+        root_b = root_b.op.operands[0]
+    if root_a is not root_b:
+        return False
+    if _depends_on_index(a, index_op) and _depends_on_index(b, index_op):
+        return _same_value(a, b)
+    return True
 
 
 @dataclass
@@ -69,6 +121,20 @@ class PipelineDuplicateBuffers(RewritePattern):
             and use.operation.parent_op() is op.parent_op()
             and buffer in use.operation.outs
         ]
+
+        # the same memory can also be accessed through another value (a view of the same buffer)
+        aliases = [
+            (stage, other)
+            for stage in pipeline_op.body.block.ops
+            if isinstance(stage, StageOp)
+            for other in stage.ins + stage.outs
+            if other is not buffer and may_be_same_memory(buffer, other, index_op)
+        ]
+        if aliases:
+            is_read = len(in_uses) > 0 or any(other in stage.ins for stage, other in aliases)
+            is_written = len(out_uses) > 0 or any(other in stage.outs for stage, other in aliases)
+            if is_read and is_written:
+                raise NotImplementedError("buffer read and written through different views is not yet supported")
 
         if len(in_uses) == 0 or len(out_uses) == 0:
             # only used as input or output, so no risk of a read/write conflict
